@@ -46,12 +46,21 @@ def to_text(script, name='script'):
     return '\n'.join(out) + '\n'
 
 
+def parse_native_lines(lines):
+    return parse_native('=== x\n' + '\n'.join(lines) + '\n# done\n')['x']['trace']
+
+
 def parse_native(text):
     """-> {name: {'trace': [...], 'end': str}}"""
     res = {}
     cur = None
+    eager = []
     for line in text.split('\n'):
+        if line.startswith('> '):
+            eager.append(line[2:])
+            continue
         if line.startswith('=== '):
+            eager = []
             cur = {'trace': [], 'end': None}
             res[line[4:].strip()] = cur
             continue
@@ -78,6 +87,15 @@ def parse_native(text):
             cur['trace'].append(['uncaught-panic'])
         else:
             cur['trace'].append(['raw', line])
+    if eager:
+        # a process that died before its script ended has printed no complete block: what it had printed so far
+        # (eager lines) is the trace prefix of the last script
+        last = None
+        for nm in res:
+            last = nm
+        if last is None or (res[last]['end'] is None and not res[last]['trace']):
+            sub = parse_native_lines(eager)
+            res[last or 'replay'] = {'trace': sub, 'end': None, 'partial': True}
     return res
 
 
@@ -121,13 +139,13 @@ class Native:
         self.bin = os.path.join(env['CARGO_TARGET_DIR'], 'debug', 'vrunner')
         return self.bin
 
-    def run(self, named_scripts, seed=0, timeout=120):
+    def run(self, named_scripts, seed=0, timeout=120, eager=False):
         """named_scripts: list of (name, script) -> parsed results; a crash/abort is reported per batch"""
         path = os.path.join(self.scratch, 'batch-%d-%d.txt' % (os.getpid(), abs(hash(tuple(n for n, _ in named_scripts))) % 10**9))
         with open(path, 'w') as f:
             for n, s in named_scripts:
                 f.write(to_text(s, n))
-        r = subprocess.run([self.bin, path, str(seed)], capture_output=True, text=True, timeout=timeout)
+        r = subprocess.run([self.bin, path, str(seed)] + (['eager'] if eager else []), capture_output=True, text=True, timeout=timeout)
         os.unlink(path)
         res = parse_native(r.stdout)
         return res, r.returncode, r.stderr
